@@ -19,3 +19,27 @@ for p in sorted(glob.glob(os.path.join(os.path.dirname(__file__), '..', 'seeded'
 print('| seed | what it changes / needs (sub-agent note) | result of `./check` on the changed tree |')
 print('|---|---|---|')
 print('\n'.join(rows))
+
+# ---- behaviour-preserving changes (harmless/): must not alarm
+hrows = []
+for p in sorted(glob.glob(os.path.join(os.path.dirname(__file__), '..', 'harmless', '*', 'meta.json'))):
+    m = json.load(open(p))
+    notes = ''
+    np_ = os.path.join(os.path.dirname(p), 'agent_notes.txt')
+    if os.path.exists(np_):
+        notes = ' '.join(open(np_).read().split())[:150].replace('|', '/')
+    cells = []
+    for k, v in (m.get('runs') or {}).items():
+        verdict = {0: 'OK', 1: 'FALSE ALARM', 2: 'no verdict'}.get(v.get('exit'), '?')
+        why = ''
+        if v.get('exit') == 2 and v.get('no_verdict'):
+            why = ' (' + v['no_verdict'][0].split(' is NOT VERIFIED')[0].replace('unit ', '')[:70] + ')'
+        cells.append('%s: %s%s' % (k, verdict, why))
+    hrows.append('| %s | %s | %s |' % (m['id'], notes, '; '.join(cells) or 'not run yet'))
+if hrows:
+    print()
+    print('Behaviour-preserving changes (`harmless/`, `tools/harmrun.py`): the check of the property must not alarm.')
+    print()
+    print('| change | what it is (sub-agent note) | result of `./check` on the changed tree |')
+    print('|---|---|---|')
+    print('\n'.join(hrows))
